@@ -41,6 +41,10 @@ OWN_HEADERS = {"host", "accept", "accept-encoding", "connection", "user-agent", 
 J, MP, FORM, OCT = ("application/json", "multipart/form-data", "application/x-www-form-urlencoded",
                     "application/octet-stream")
 ENUMS = {"Color": {"type": "string", "enum": ["red", "dark-blue"]}, "Num": {"type": "integer", "enum": [1, 2]}}
+# a named object schema: JSON bodies of operations with "json_model" are instances of the GENERATED dataclass
+COMPONENTS = {**ENUMS, "Item": {"type": "object", "required": ["a"],
+                                "properties": {"a": {"type": "integer"}, "name": {"type": "string"},
+                                               "tags": {"type": "array", "items": {"type": "string"}}}}}
 METHODS = ["get", "put", "post", "delete", "patch", "head", "options", "trace"]
 TYS = ["str", "int", "bool", "enum", "date", "datetime"]
 
@@ -71,9 +75,9 @@ def schema_of(p: dict) -> dict:
     return {"type": "array", "items": s} if p["array"] else s
 
 
-def body_schema(ct: str) -> dict:
+def body_schema(ct: str, model: bool = False) -> dict:
     if ct == J:
-        return {"type": "object", "additionalProperties": True}
+        return {"$ref": "#/components/schemas/Item"} if model else {"type": "object", "additionalProperties": True}
     if ct == MP:
         return {"type": "object", "properties": {"f": {"type": "string", "format": "binary"}}}
     if ct == FORM:
@@ -103,12 +107,12 @@ def spec_of(ops: list[dict]) -> dict:
         if olevel:
             node["parameters"] = olevel
         if op["body"]:
-            rb: dict[str, Any] = {"content": {ct: {"schema": body_schema(ct)} for ct in op["body"]}}
+            rb: dict[str, Any] = {"content": {ct: {"schema": body_schema(ct, bool(op.get("json_model")))} for ct in op["body"]}}
             if op["body_required"]:
                 rb["required"] = True
             node["requestBody"] = rb
         item[op["method"]] = node
-    return base_spec(paths, ENUMS)
+    return base_spec(paths, COMPONENTS)
 
 
 def ordered_params(op: dict) -> list[dict]:
@@ -154,8 +158,13 @@ def gen_value(rng, p: dict) -> dict:
 JSON_BODIES = [{"a": 1}, {"name": "x y", "tags": ["a", "b"], "n": {"k": True}}, {}, {"u": "é", "z": [1, 2, 3]}]
 
 
-def gen_body(rng, ct: str) -> dict:
+MODEL_BODIES = [{"a": 1}, {"a": -3, "name": "x y"}, {"a": 0, "name": "é", "tags": ["p", "q"]}, {"a": 7, "tags": []}]
+
+
+def gen_body(rng, ct: str, model: bool = False) -> dict:
     if ct == J:
+        if model:
+            return {"t": "model", "cls": "Item", "v": rng.choice(MODEL_BODIES)}
         return {"t": "json", "v": rng.choice(JSON_BODIES)}
     if ct == MP:
         return {"t": "files", "v": rng.choice([[["f", [97, 98, 99]]], [["f", [0, 255, 13, 10, 45, 45]], ["g", []]],
@@ -216,6 +225,8 @@ def gen_op(rng, idx: int, flavour: str = "plain") -> dict:
         body = rng.choice([[J, MP], [MP, J], [J, FORM], [J, MP, FORM], [FORM, MP]])
     op = {"id": f"op{idx}", "tag": "alpha", "method": method, "path": path, "params": params, "body": body,
           "body_required": bool(body) and rng.random() < 0.5}
+    if J in body and rng.random() < 0.4:
+        op["json_model"] = True
     if flavour == "collide":
         k = rng.random()
         if k < 0.3 and vnames:         # F04c: a path-level parameter repeated at operation level
@@ -278,7 +289,7 @@ def assignments(rng, op: dict, max_enum: int = 5, n_random: int = 12, cap: int |
                 a["params"].append([p["in"], p["name"], gen_value(rng, p)])
         if op["body"] and (op["body_required"] or len(opt) in sub):
             ct = rng.choice(op["body"])
-            a["body"] = [ct, gen_body(rng, ct)]
+            a["body"] = [ct, gen_body(rng, ct, bool(op.get("json_model")))]
         out.append(a)
     return out
 
@@ -308,6 +319,16 @@ def decode_value(v, leaf):
         return [decode_value(x, leaf) for x in v["items"]]
     if t == "json":
         return v["v"]
+    if t == "model":
+        # omitted optional fields are passed as an explicit None (the generated default of an optional array
+        # field is [] rather than None: a model-generation matter, C02/C03, not request plumbing)
+        import dataclasses
+        mod = importlib.import_module("client.models." + v["cls"].lower())
+        cls = getattr(mod, v["cls"])
+        kw = {f.name: None for f in dataclasses.fields(cls)
+              if f.default is not dataclasses.MISSING or f.default_factory is not dataclasses.MISSING}
+        kw.update(v["v"])
+        return cls(**kw)
     if t == "files":
         return {k: io.BytesIO(bytes(b)) for k, b in v["v"]}
     if t == "form":
@@ -489,7 +510,7 @@ def oracle(op: dict, a: dict, obs: dict) -> list[str]:
             fails.append(f"a body was sent although none was supplied: {r['body'][0]}")
     else:
         ct, bv = a["body"]
-        if bv["t"] == "json":
+        if bv["t"] in ("json", "model"):
             want_b = ["json", json.dumps(bv["v"], sort_keys=True, separators=(",", ":"), ensure_ascii=False)]
         elif bv["t"] == "files":
             want_b = ["files", bv["v"]] if bv["v"] else ["none"]
@@ -537,7 +558,7 @@ def c_bytes(b: list) -> str:
 
 
 def c_bval(bv: dict) -> str:
-    if bv["t"] == "json":
+    if bv["t"] in ("json", "model"):
         return f"(BJson {cstr(json.dumps(bv['v'], sort_keys=True, separators=(',', ':'), ensure_ascii=False))})"
     if bv["t"] == "files":
         return f"(BFiles {clist(cpair(cstr(k), c_bytes(b)) for k, b in bv['v'])})"
@@ -671,7 +692,7 @@ def main(chk: Check, replay: dict | None = None) -> int:
         for _, _, v in a["params"]:
             k = v["t"] if v["t"] != "arr" else "arr"
             dist["value_kinds"][k] = dist["value_kinds"].get(k, 0) + 1
-        bk = a["body"][1]["t"] if a["body"] else "none"
+        bk = a["body"][1]["t"] if a["body"] else "none"   # "model" = instance of a generated dataclass
         dist["body_kinds"][bk] = dist["body_kinds"].get(bk, 0) + 1
         dist["errors"] += "err" in c["obs"]
         dist["oracle_failures"] += bool(c["oracle_fail"])
